@@ -293,6 +293,32 @@ func (eval Evaluator) matchScaleThenEvaluateInPlace(level int, el0 *rlwe.Ciphert
 
 	r0, r1, _ := eval.matchScalesBinary(el0.Scale.Uint64(), el1.Scale.Uint64())
 
+	// If the receiver is also the second operand, writing r0*el0 on it first would overwrite el1
+	// before it is read: each component is then computed on a buffer.
+	if el1 == elOut.El() {
+
+		ringQ := eval.parameters.RingQ().AtLevel(level)
+
+		tmp := eval.buffQ[0]
+
+		for i := range el1.Value {
+
+			if i < len(el0.Value) {
+				ringQ.MulScalar(el0.Value[i], r0, tmp)
+			} else {
+				tmp.Zero()
+			}
+
+			evaluate(el1.Value[i], r1, tmp)
+
+			elOut.Value[i].CopyLvl(level, tmp)
+		}
+
+		elOut.Scale = el0.Scale.Mul(eval.parameters.NewScale(r0))
+
+		return
+	}
+
 	for i := range el0.Value {
 		eval.parameters.RingQ().AtLevel(level).MulScalar(el0.Value[i], r0, elOut.Value[i])
 	}
